@@ -94,6 +94,21 @@ func c03Scenarios() []hpScenario {
 		sc = hpScenario{Hosts: 2, RouteTimeoutMs: 1000, TimeoutHosts: []int{0}, RetryOn: retry, Requests: []hpRequest{{Token: "t1", Script: []string{upClose, upReply200}}}}
 		add(sc)
 	}
+	// send failures: the peer is gone when the request (headers, or the frame with the body) is written
+	for _, retry := range []bool{false, true} {
+		for _, body := range []bool{false, true} {
+			for _, oneway := range []bool{false, true} {
+				if oneway && retry {
+					continue
+				}
+				sc := hpScenario{Hosts: 2, RouteTimeoutMs: 1000, UpBreakAtWrite: 1, RetryOn: retry, Requests: []hpRequest{{Token: "t1", Oneway: oneway, Body: body, Script: []string{upReply200, upReply200}}}}
+				if retry {
+					sc.NumRetries = 1
+				}
+				add(sc)
+			}
+		}
+	}
 	// MOSN-generated errors before any upstream attempt
 	add(hpScenario{Hosts: 1, NoRoute: true, RouteTimeoutMs: 1000, Requests: []hpRequest{{Token: "t1", Script: []string{upReply200}}}})
 	add(hpScenario{Hosts: 1, NoHosts: true, RouteTimeoutMs: 1000, Requests: []hpRequest{{Token: "t1", Script: []string{upReply200}}}})
@@ -109,7 +124,7 @@ func c03Scenarios() []hpScenario {
 // c03Core: the scenarios explored with the full deviation bound in the quick tier
 // (two-way, header-only, no disconnect: every first outcome x retry policy x per-try timeout).
 func c03Core(sc *hpScenario) bool {
-	if len(sc.Requests) != 1 || sc.DownDisconnect || sc.NoRoute || sc.NoHosts || sc.AllUnhealthy || len(sc.FailHosts)+len(sc.TimeoutHosts) > 0 {
+	if len(sc.Requests) != 1 || sc.DownDisconnect || sc.NoRoute || sc.NoHosts || sc.AllUnhealthy || len(sc.FailHosts)+len(sc.TimeoutHosts) > 0 || sc.UpBreakAtWrite > 0 {
 		return false
 	}
 	r := sc.Requests[0]
